@@ -10,6 +10,7 @@ import re
 
 from . import sched_common as sc
 from . import c01
+from . import notime
 from .. import common
 from ..schedlib import model_request, run_impl
 
@@ -114,9 +115,24 @@ def run(ctx, res):
     res.assumptions = ["6% of the cases contain a component that declares itself FINISHED before the end time: these exhibit the recorded finding finished-status-overwritten and are classified, not hidden"]
     specs = corpus() + [gen(ctx) for _ in range(ctx.n(300, 6000))]
     sc.run_cases(specs, res, [oracle], exclude=c01_known)
+    # compositions without any time-stepped component (engines/notime.py): nothing to step, the life cycle is walked all the same
+    for _ in range(ctx.n(24, 200)):
+        c = notime.gen(ctx.rng)
+        res.case(c, True)
+        res.count("part", "no-time-components")
+        o = notime.oracle(c, notime.run(c))
+        if o:
+            res.fail(c, o[0], o[1])
 
 
 def search(ctx, res, divergences, broken):
+    for _ in range(60):
+        c = notime.gen(ctx.rng)
+        res.case(c, True)
+        o = notime.oracle(c, notime.run(c))
+        if o:
+            res.fail(c, o[0], o[1], None)
+            return
     specs = [d["case"] for d in divergences if d.get("case")] + [gen(ctx) for _ in range(ctx.n(1500, 20000))]
     for s in specs:
         impl = run_impl(s)
@@ -130,6 +146,9 @@ def search(ctx, res, divergences, broken):
 
 
 def shrink(ctx, f):
+    if f["case"].get("part") == "notime":
+        return f
+
     def still(t):
         impl = run_impl(t, timeout=10)
         o = oracle(t, impl)
@@ -143,6 +162,10 @@ def shrink(ctx, f):
 
 def replay(ctx, rp):
     case = rp.get("input") or (rp.get("diverging_case") or {}).get("case")
+    if case.get("part") == "notime":
+        impl = notime.run(case)
+        o = notime.oracle(case, impl)
+        return {"fails": bool(o), "oracle": o, "observed": impl}
     impl = run_impl(case)
     o = oracle(case, impl)
     return {"fails": bool(o) and o[2] is None, "oracle": o, "updates": impl["updates"][:40], "error": impl.get("msg"), "calls": impl["calls"]}
